@@ -162,6 +162,12 @@ fn templates(k: &str, raw_payload: &str) -> Vec<Tpl> {
     v.push(Tpl { doc: format!("k1: {k}\n"), target: "Strict", flags: F_NO_SCHEMA });
     v.push(Tpl { doc: format!("k1: 1{raw_payload}\n"), target: "Strict", flags: F_NO_SCHEMA });
     v.push(Tpl { doc: "k1: 0x1b\n".to_string(), target: "Strict", flags: F_NO_SCHEMA });
+    // number-like plain scalars padded with characters that `str::trim` treats as white space
+    for ws in ['\u{b}', '\u{c}', '\u{85}'] {
+        v.push(Tpl { doc: format!("k1: 12{ws}\n"), target: "Strict", flags: F_NO_SCHEMA });
+        v.push(Tpl { doc: format!("k1: {ws}0x1f\n"), target: "Strict", flags: F_NO_SCHEMA });
+        v.push(Tpl { doc: format!("k1: true{ws}\n"), target: "Strict", flags: F_NO_SCHEMA });
+    }
     // robotics expression hook
     v.push(Tpl { doc: format!("f: deg({k})\n"), target: "Strict", flags: F_ANGLE });
     v.push(Tpl { doc: format!("f: deg({raw_payload})\n"), target: "Strict", flags: F_ANGLE });
@@ -236,6 +242,53 @@ pub fn reflect_cases(tier: Tier) -> Vec<Case> {
                 }
             }
         }
+    }
+    // the same document can come out of several payload / spelling combinations
+    let mut seen = std::collections::HashSet::new();
+    out.retain(|c| seen.insert(c.hash()));
+    out
+}
+
+/// Seed-independent instances of layouts that the seeded families reach only by chance.
+pub fn fixed_cases() -> Vec<Case> {
+    let mut out = Vec::new();
+    let mut add = |doc: &str, target: &'static str, entries: &[Entry], radii: &[usize]| {
+        for e in entries {
+            for r in radii {
+                let mut c = Case::new(doc, target, "fixed");
+                c.entry = *e;
+                c.radius = *r;
+                out.push(c);
+            }
+        }
+    };
+    let both = [Entry::Str, Entry::Reader(7), Entry::Reader(8192), Entry::Slice];
+    let radii = [64usize, 3, 1_000_000];
+    // leading BOM
+    add("\u{feff}k: zz\n", "MapI32", &both, &radii);
+    add("\u{feff}# c\n\nk: [1, 2\n", "MapI32", &both, &radii);
+    // non-ASCII text in comments / directives before the error
+    add("# h\u{e9}llo w\u{f6}rld\nk: zz\n", "MapI32", &both, &radii);
+    add("# \u{4e16}\u{754c}\n# \u{1f600}\nk:\n  - zz\n", "MapI32", &both, &radii);
+    add("%\u{e9}\na\n", "Val", &both, &radii);
+    add("%TAG ! tag:\u{e9}\u{e9}:\nx\n", "String", &both, &radii);
+    // a line longer than the reader's window, error near its start / middle / end
+    let long = "x".repeat(5000);
+    add(&format!("{{k: zz, \"q{long}\": 2}}\n"), "MapI32", &both, &radii);
+    add(&format!("# c\n{{\"p{long}\": 1, k: zz, \"q{long}\": 2}}\n"), "MapI32", &both, &radii);
+    add(&format!("{{\"p{long}\": 1, k: zz}}\n# c\n"), "MapI32", &both, &radii);
+    // two-window rendering: line numbers with 1, 2, 3 digits; wide text before the anchor
+    for fill in [0usize, 7, 8, 9, 97, 98, 99, 1000] {
+        let mut d = "# filler\n".repeat(fill);
+        d.push_str("v: {q: &x {bad: 1}}\nh: *x\n");
+        add(&d, "Strict", &both, &radii);
+        let mut d = "# filler\n".repeat(fill);
+        d.push_str("v: {\"\u{4e16}\u{754c}e\u{301}\": 1, q: &x zz}\n# between\nk2: *x\n# after\n");
+        add(&d, "Strict", &both, &radii);
+    }
+    // documents whose first token already fails (from_multiple peeks before deserializing)
+    for d in ["}", "]", "*a", "- }", "\"a", "a: 1\n---\n}\n"] {
+        add(d, "MapI32", &[Entry::Multi, Entry::Str, Entry::WithDeStr], &radii);
     }
     out
 }
